@@ -67,7 +67,7 @@ pub fn regression_holds(payload: &serde_json::Value) -> bool {
         Some((_, c)) => c.clone(),
         None => return true,
     };
-    let monitors = Monitors { c03: false, c04: false, c13: false, c15: true, c19: false };
+    let monitors = Monitors { c03: false, c04: false, c13: false, c15: true, c19: false, c20: false };
     rt::run(run_history_with(&cfg, monitors, &hist, true, &Idler { max_idles: 3 })).violation.is_none()
 }
 
@@ -79,7 +79,7 @@ pub fn replay(payload: &serde_json::Value) {
         Some((_, c)) => c.clone(),
         None => mc::machinery(&format!("unknown configuration {name}")),
     };
-    let monitors = Monitors { c03: false, c04: false, c13: false, c15: true, c19: false };
+    let monitors = Monitors { c03: false, c04: false, c13: false, c15: true, c19: false, c20: false };
     rt::run(crate::hsim::replay_verbose(&cfg, monitors, &hist, &Idler { max_idles: 3 }));
 }
 
@@ -98,7 +98,7 @@ pub fn run() {
     }
     let mut found: Vec<mc::Violation> = lru.violations.clone();
     // handler part
-    let monitors = Monitors { c03: false, c04: false, c13: false, c15: true, c19: false };
+    let monitors = Monitors { c03: false, c04: false, c13: false, c15: true, c19: false, c20: false };
     let d = Idler { max_idles: if thorough { 3 } else { 2 } };
     let cfgs = configs(thorough);
     let budget = mc::budget(thorough, 40.0, 0.7);
